@@ -85,7 +85,8 @@ def transform_case(rng, case, tkind):
         c2 = OptCase(B @ Q, case.kind, costs=case.costs, gqr=dict(case.gqr))
         return c2, (lambda r: r), {"transform": k, "Q": Q.tolist()}
     if tkind == "scale":
-        a = 2.0 ** rng.choice([-3, -2, -1, 1, 2, 3, 4, -70, -60, -40, -20, 20, 40, 60])   # no magnitude is special
+        # no magnitude is special: half of the factors are far from 1
+        a = 2.0 ** (rng.choice([-3, -2, -1, 1, 2, 3, 4]) if rng.random() < 0.5 else rng.choice([-70, -60, -52, -40, 40, 60]))
         c2 = OptCase(B * a, case.kind, costs=None if case.costs is None else case.costs * a, gqr=dict(case.gqr))
         return c2, (lambda r: r), {"transform": "scale", "factor": a}
     # relabel sensors: new sensor i is old sensor pi[i]
@@ -107,6 +108,7 @@ def run(ctx: C.Ctx):
     # relabelling is the transform that moves sensor ids around: region logic that looks at ids instead of ranks shows
     # only here, and only when the region is over-full
     plan += [("gqr", "relabel", True)] * ctx.scale(80, 1000)
+    plan += [("ccqr", "scale", None)] * ctx.scale(30, 300) + [("gqr", "scale", None)] * ctx.scale(20, 200)
     for idx, (fk, ft, fo) in enumerate(plan):
         n = rng.randint(3, ctx.scale(10, 14)); m = rng.randint(2, ctx.scale(6, 10))
         B = gen.gen_generic_matrix(rng, n, m)
